@@ -381,3 +381,49 @@ def status_model(rng, comm):
             "ss_ge": str(rng.randrange(10, 60000)), "ss_gs": str(rng.randrange(10, 60000)),
             "ss_nthr": str(rng.randrange(1, 500)), "ss_vol": str(rng.randrange(0, 2 ** 64)),
             "ss_nonvol": str(rng.randrange(0, 2 ** 64))}
+
+
+@runner("c06:threads")
+def c06_threads(model, meta):
+    """1..n threads, each with its own comm; oracle = independent decoding of the same records"""
+    from psutil import _pslinux
+    import random
+    pid = 4300
+    comms = [unlat(c)[:15] for c in model.get("comms", ["x"])]
+    rng = random.Random(len(comms))
+    files = {}
+    want = []
+    for k, comm in enumerate(comms):
+        tid = pid + k
+        F = stat_fields(rng, rng.choice([52, 44]))
+        files[f"{pid}/task/{tid}/stat"] = build_stat(tid, comm, F)
+        want.append((tid, int(F[11]) / _pslinux.CLOCK_TICKS, int(F[12]) / _pslinux.CLOCK_TICKS))
+    files[f"{pid}/stat"] = build_stat(pid, comms[0], stat_fields(rng))
+    with fake_procfs(files):
+        p = _pslinux.Process(pid)
+        try:
+            res, exc = p.threads(), None
+        except Exception as e:  # noqa: BLE001
+            res, exc = None, e
+    got = sorted((t.id, t.user_time, t.system_time) for t in res) if res is not None else None
+
+    def close(a, b):   # float rounding of tick counts beyond 2^53 is outside the property (DESIGN 3.1)
+        return a == b or abs(a - b) <= 1e-12 * max(abs(a), abs(b))
+
+    bad = exc is not None or len(got) != len(want) or any(
+        g[0] != w[0] or not close(g[1], w[1]) or not close(g[2], w[2]) for g, w in zip(got, sorted(want)))
+    return {"env": {}, "result": got, "exc": exc, "verdict": bad, "expected": sorted(want), "comms": comms}
+
+
+@search("c06:threads")
+def c06_threads_search(meta, seed, budget):
+    import random
+    rng = random.Random(seed)
+    n = 0
+    for c in TRICKY_COMMS:
+        yield {"comms": [lat(c)]}
+        n += 1
+    while n < budget:
+        k = rng.randrange(1, 6)
+        yield {"comms": [lat(bytes(rng.choice(b"ab() \n\t:)(") for _ in range(rng.randrange(0, 16)))) for _ in range(k)]}
+        n += 1
